@@ -227,6 +227,8 @@ pub struct Run {
     pub budget_s: f64,
     pub leg: Option<String>,
     pub min_nontrivial: usize,
+    /// distinct non-trivial cases counted by child legs (they report a count, not digests)
+    pub leg_nontrivial: usize,
 }
 
 impl Run {
@@ -257,6 +259,7 @@ impl Run {
             },
             leg: None,
             min_nontrivial: 2,
+            leg_nontrivial: 0,
         }
     }
 
@@ -432,6 +435,33 @@ impl Run {
                 tool_errors.push(format!("{} | {}", line.trim(), ctx));
             }
         }
+        // a child that died (abort inside an extern "C" function, segfault) without delivering its summary
+        let died = matches!(status, Some(134) | Some(139) | Some(132) | Some(136) | Some(135)) && summaries.is_empty();
+        if died {
+            let last_case = lines.iter().rev().find_map(|l| l.strip_prefix("CASE ")).unwrap_or("?").to_string();
+            let panic_line = lines
+                .iter()
+                .find(|l| l.starts_with("panic: ") || l.contains("panicked at"))
+                .map(|s| s.to_string())
+                .unwrap_or_default();
+            let class = crate::ctx::panic_class(panic_line.trim_start_matches("panic: "));
+            self.merged.viol.push(Violation {
+                sub: leg.to_string(),
+                sig: format!("[{}] the process aborted inside the library (status {}): {}", leg, status.unwrap_or(0), class),
+                idx: 0,
+                detail: J::obj().set("leg", leg).set("log", log_path).set("last_case", last_case).set("panic", panic_line),
+            });
+            leg_viol += 1;
+        }
+        // counts measured by the leg are part of this run's coverage
+        for sm in &summaries {
+            if let Some(e) = sm.get("evaluations").and_then(|x| x.as_u64()) {
+                self.merged.evals += e;
+            }
+            if let Some(n) = sm.get("distinct_nontrivial").and_then(|x| x.as_u64()) {
+                self.leg_nontrivial += n as usize;
+            }
+        }
         tool_errors.sort();
         tool_errors.dedup();
         for e in &tool_errors {
@@ -579,7 +609,7 @@ impl Run {
             println!("INCONCLUSIVE property={} {}", self.prop, w);
         }
 
-        let nt = self.merged.nontrivial.len();
+        let nt = self.merged.nontrivial.len() + self.leg_nontrivial;
         let mut cov = J::obj()
             .set("evaluations", self.merged.evals)
             .set("distinct_nontrivial", nt)
